@@ -31,7 +31,7 @@ def negotiation(c):
         for j in cases:
             l, rr = j["l"], j["r"]
             if j["kind"] == "fam":
-                f.write(f"fam {lst(l['mp'])} {ap(l['ap'])} {lst(l['enh'])} {lst(rr['mp'])} {ap(rr['ap'])} {lst(rr['enh'])}\n")
+                f.write(f"fam {lst(l['mp'])} {ap(l['ap'])} {lst(l['enh'])} {lst(rr['mp'])} {ap(rr['ap'])} {lst(rr['enh'])} {l['ord']} {rr['ord']}\n")
             elif j["kind"] == "scal":
                 f.write(f"scal {b(l['as4'])} {b(l['extmsg'])} {b(rr['as4'])} {b(rr['extmsg'])}\n")
             elif j["kind"] == "gr":
